@@ -1330,7 +1330,7 @@ struct R15<'a> {
 impl<'a> R15<'a> {
     fn gen(&self, source: &Source, stages: &[Stage], term: &Term, hint: Option<&str>) -> Option<String> {
         let to_set = match term {
-            Term::Collect(tf) => tf.clone().or(hint.map(|h| h.replace(' ', ""))).map(|t| t.starts_with("HashSet<")).unwrap_or(false),
+            Term::Collect(tf) => tf.clone().or(hint.map(|h| h.replace(' ', ""))).map(|t| t.starts_with("HashSet<") || t.starts_with("HashMap<")).unwrap_or(false),
             _ => false,
         };
         let needs = stages.iter().any(|s| matches!(s, Stage::Filter(_) | Stage::FilterMap(_)))
@@ -1346,7 +1346,7 @@ impl<'a> R15<'a> {
             Term::Collect(tf) => {
                 // no annotation in reach: `Vec<_>` (if the context wants another container the unit does not compile: exit 2)
                 let t = tf.clone().or(hint.map(|h| h.replace(' ', ""))).unwrap_or_else(|| "Vec<_>".to_string());
-                if t.starts_with("Vec<") { Some(("Vec", t)) } else if t.starts_with("HashSet<") { Some(("HashSet", t)) } else { return None }
+                if t.starts_with("Vec<") { Some(("Vec", t)) } else if t.starts_with("HashSet<") { Some(("HashSet", t)) } else if t.starts_with("HashMap<") { Some(("HashMap", t)) } else { return None }
             }
             _ => None,
         };
@@ -1395,7 +1395,12 @@ impl<'a> R15<'a> {
             Term::Collect(_) => {
                 let (kind, t) = coll.unwrap();
                 let add = if kind == "Vec" { "push" } else { "insert" };
+                if kind == "HashMap" {
+                    // FromIterator<(K, V)> for HashMap inserts the pairs in order (a later pair with the same key replaces the earlier one)
+                    format!("{{ let mut out_: {t} = HashMap::new(); {head} {{ {body}let kv_ = {cur}; out_.insert(kv_.0, kv_.1); {closers}}} out_ }}", t = t, head = head, body = body, cur = cur, closers = closers)
+                } else {
                 format!("{{ let mut out_: {t} = {kind}::new(); {head} {{ {body}out_.{add}({cur}); {closers}}} out_ }}", t = t, kind = kind, head = head, body = body, add = add, cur = cur, closers = closers)
+                }
             }
             Term::SumF32 => format!("{{ let mut acc_: f32 = -0.0; {head} {{ {body}acc_ = acc_ + {cur}; {closers}}} acc_ }}", head = head, body = body, cur = cur, closers = closers),
             Term::Fold(init, c) => {
